@@ -4,6 +4,7 @@ import (
 	"errors"
 	"fmt"
 	"reflect"
+	"verif/world"
 
 	saml2 "github.com/russellhaering/gosaml2"
 	"github.com/russellhaering/gosaml2/types"
@@ -91,9 +92,27 @@ func guard(f func()) (p string) {
 	return ""
 }
 
+// liveScribble: in a live-instance pass, the results handed out while the previous case was
+// judged are written all over (every field, slice element and map entry, in place) before the
+// next case starts - their holder is free to do that, and nothing a later call returns may
+// depend on it.
+func liveScribble() {
+	if !world.LiveOn() {
+		return
+	}
+	for _, v := range world.TakeRemembered() {
+		scribbleDeep(reflect.ValueOf(v), 0, map[uintptr]bool{})
+	}
+}
+
 func validateResponse(sp *saml2.SAMLServiceProvider, enc string) (*types.Response, callResult) {
 	var resp *types.Response
 	var err error
+	defer func() {
+		if resp != nil {
+			world.Remember(resp)
+		}
+	}()
 	p := guard(func() { resp, err = sp.ValidateEncodedResponse(enc) })
 	return resp, callResult{Panic: p, Err: describeErr(err), NilRes: resp == nil}
 }
@@ -101,6 +120,11 @@ func validateResponse(sp *saml2.SAMLServiceProvider, enc string) (*types.Respons
 func retrieveInfo(sp *saml2.SAMLServiceProvider, enc string) (*saml2.AssertionInfo, callResult) {
 	var info *saml2.AssertionInfo
 	var err error
+	defer func() {
+		if info != nil {
+			world.Remember(info)
+		}
+	}()
 	p := guard(func() { info, err = sp.RetrieveAssertionInfo(enc) })
 	return info, callResult{Panic: p, Err: describeErr(err), NilRes: info == nil}
 }
@@ -108,6 +132,11 @@ func retrieveInfo(sp *saml2.SAMLServiceProvider, enc string) (*saml2.AssertionIn
 func validateLogoutRequest(sp *saml2.SAMLServiceProvider, enc string) (*saml2.LogoutRequest, callResult) {
 	var res *saml2.LogoutRequest
 	var err error
+	defer func() {
+		if res != nil {
+			world.Remember(res)
+		}
+	}()
 	p := guard(func() { res, err = sp.ValidateEncodedLogoutRequestPOST(enc) })
 	return res, callResult{Panic: p, Err: describeErr(err), NilRes: res == nil}
 }
@@ -115,6 +144,11 @@ func validateLogoutRequest(sp *saml2.SAMLServiceProvider, enc string) (*saml2.Lo
 func validateLogoutResponse(sp *saml2.SAMLServiceProvider, enc string) (*types.LogoutResponse, callResult) {
 	var res *types.LogoutResponse
 	var err error
+	defer func() {
+		if res != nil {
+			world.Remember(res)
+		}
+	}()
 	p := guard(func() { res, err = sp.ValidateEncodedLogoutResponsePOST(enc) })
 	return res, callResult{Panic: p, Err: describeErr(err), NilRes: res == nil}
 }
